@@ -316,7 +316,11 @@ class RefState(object):
         elif sp[0] == "q":
             prefix = sp[1]
             sc = self.sc[s]
-            if prefix == "":
+            if prefix == "" and ":" in local:
+                # an unprefixed name with a colon in its local part cannot be printed unprefixed: the container
+                # gives its namespace the prefix 'dn' (as it does for a second default namespace)
+                self.bind_prefix(s, "dn", U[urikey])
+            elif prefix == "":
                 if sc.default is None:
                     sc.default = U[urikey]
                 elif sc.default is AMBIG:
